@@ -2131,6 +2131,7 @@ func (d *Data) ReceiveBlocks(ctx *datastore.VersionedCtx, r io.ReadCloser, scale
 	var wg sync.WaitGroup
 
 	callback := func(bcoord dvid.IZYXString, block *labels.Block, ready chan error) {
+		defer wg.Done() // also when the store refused the write: the request waits on this group
 		if ready != nil {
 			if resperr := <-ready; resperr != nil {
 				dvid.Errorf("Unable to PUT voxel data for block %v: %v\n", bcoord, resperr)
@@ -2153,8 +2154,6 @@ func (d *Data) ReceiveBlocks(ctx *datastore.VersionedCtx, r io.ReadCloser, scale
 		if err := datastore.NotifySubscribers(evt, msg); err != nil {
 			dvid.Errorf("Unable to notify subscribers of event %s in %s\n", event, d.DataName())
 		}
-
-		wg.Done()
 	}
 
 	if d.Compression().Format() != dvid.Gzip {
